@@ -35,6 +35,13 @@ for p in props:
         na.append({"property_id": p, "reason": "not yet built: the check for this property is still under construction in this framework (see DESIGN.md section 5 build order); no claim is made"})
 na.sort(key=lambda x: x["property_id"])
 m = {k: v for k, v in base.items() if k != "not_applicable"}
+import subprocess
+try:
+    hooks = subprocess.run(["git", "-C", "/repo", "log", "--format=%h %s", "--grep=^verif hook"], capture_output=True, text=True).stdout.strip().splitlines()
+    m["hooks"]["source_commits"] = [h.split()[0] for h in reversed(hooks)]
+except Exception:
+    pass
+m["engines"][0]["serves_properties"] = sorted(claimed)
 m["checks"] = checks
 m["not_applicable"] = na
 json.dump(m, open(os.path.join(ROOT, "MANIFEST.json"), "w"), indent=1)
